@@ -801,7 +801,11 @@ func (e *Engine) findIndicesBoundedBacktrackerAt(haystack []byte, at int) (int, 
 				}
 				return e.pikevmSearchWithSlotTableAt(haystack, at, nfa.SearchModeFind)
 			}
-			start, end, found := e.asciiBoundedBacktracker.Search(remaining)
+			// Pooled per-search state: the backtracker's internal one is shared
+			// by every goroutine using the Regex.
+			state := e.getSearchState()
+			start, end, found := e.asciiBoundedBacktracker.SearchWithState(remaining, state.backtracker)
+			e.putSearchState(state)
 			if found {
 				return at + start, at + end, true
 			}
@@ -1329,14 +1333,14 @@ func (e *Engine) findIndicesBoundedBacktrackerAtWithState(haystack []byte, at in
 				maxInput := e.asciiBoundedBacktracker.MaxInputSize()
 				if maxInput > 0 && len(remaining) > maxInput && !e.longest {
 					window := remaining[:maxInput]
-					start, end, found := e.asciiBoundedBacktracker.Search(window)
+					start, end, found := e.asciiBoundedBacktracker.SearchWithState(window, state.backtracker)
 					if found {
 						return at + start, at + end, true
 					}
 				}
 				return state.pikevm.SearchWithSlotTableAt(haystack, at, nfa.SearchModeFind)
 			}
-			start, end, found := e.asciiBoundedBacktracker.Search(remaining)
+			start, end, found := e.asciiBoundedBacktracker.SearchWithState(remaining, state.backtracker)
 			if found {
 				return at + start, at + end, true
 			}
